@@ -174,17 +174,24 @@ def val_code(c):
 
 
 def run(ctx):
-    from harness import c07_impl as I
+    from harness import c07_impl as I, c07_hist
     ctx.rule = ("byte streams = policy-unslicer token streams (nested OPEN/CLOSE with 21 opentype policies, all primitive "
                 "token kinds, PING/PONG/ABORT) with and without mutations (truncation, byte flips, over-long headers, ERROR "
                 "tokens, invalid type bytes, OPEN OPEN, huge claimed bodies, garbage), each fed as one chunk, bytewise and "
-                "two random chunkings under 7 root modes; also standard-unslicer streams on the real RootUnslicer; "
+                "two random chunkings under 7 root modes; also standard-unslicer streams on the real RootUnslicer; fixed keepalive witnesses "
+                "(several PINGs per packet, PINGs in every receiver state, PING before / after each kind of protocol violation) under every "
+                "two-way cut; fixed connection-age witnesses (receivers connected before / after a RemoteCopy class or an unslicer is "
+                "registered, three root unslicers, same bytes); "
                 "non-trivial = distinct (stream, chunking) in which at least one token was completed")
     ctx.assumptions = ["two unslicer semantics are compared with the model callback by callback: the policy unslicers of harness/c07_impl.py and the "
                        "standard unslicers (root, list, tuple, dict, set, immutable-set, unicode, boolean, none) under real constraint objects; "
                        "decimal / reference / copyable / vocab unslicers, non-ASCII text and float / bool / frozenset set members are covered by "
                        "the generic theorems and the direct oracles only (the instance model abstains)",
                        "the text of ERROR messages is not compared (its length rule and the order of the writes are translated and proved)",
+                       "the Coq models take the unslicer semantics (what the registries of opentypes and RemoteCopy names allow) as ONE parameter shared by "
+                       "all receivers; that the real root unslicers consult the process-wide registries when the tokens arrive instead of freezing "
+                       "derived limits per connection is checked by the direct oracle c07_hist.connection_age only (known exception on the "
+                       "unchanged tree: RootUnslicer.maxIndexLength, reported as a candidate finding in the notes)",
                        "'no exception escapes dataReceived' is a theorem over the translated except clause for every unslicer semantics whose "
                        "callbacks raise Python exceptions (not: errors inside the handler's own sendError / transport.write)"]
     ok, log = ctx.coq_build(["props/C07.vo", "lib/PolUnslProofs.vo"])
@@ -251,11 +258,13 @@ def run(ctx):
         resync_vocab(ctx, I)
         leaf_second_token(ctx, I)
         spec_oracle(ctx, I)
+        c07_hist.keepalive_replies(ctx, I)
         send_error_oracle(ctx, I, generic_ok)
         absorbing_closer_note(ctx, I)
         if generic_ok:
             from harness import c07_std
             c07_std.std_correspondence(ctx, I, ctx.n(70, 2500))
+        c07_hist.connection_age(ctx, I)        # last: registers RemoteCopy classes / unslicers process-wide
     ctx.sample(dict(stream=list(cases[len(corpus)][0]), rootmode=cases[len(corpus)][1], kind=cases[len(corpus)][2]))
     ctx.sample(dict(stream=list(cases[-1][0]), rootmode=cases[-1][1], kind=cases[-1][2]))
 
